@@ -1,9 +1,221 @@
 import Driver.Util
+import MpcVerif.Model.IoArg
 
+/-!
+Line protocol of property C13 (one op per line, first word ignored):
+
+  c13 parse  <arg> <strs>        IOArg.Parse
+  c13 set    <arg> <vals>        IOArg.Set(nil, vals)
+  c13 isizes <strs>              circuit.InputSizes
+  c13 sizes  <vals>              circuit.Sizes
+  c13 result <info> <z>          mpc.Result twice on the same *big.Int
+  c13 split  <n,n,..> <z>        IO.Split
+  c13 inst   <info> <0|1> <size> Info.InstantiateWithSizes
+  c13 ty     h<hex>              types.Parse
+
+  info := <tag><bits>.<arraySize>[ '[' info ']' ]     tag ∈ z b i u f s t a l p n
+  arg  := info [ '{' arg (';' arg)* '}' ]
+  strs := '-' | str (',' str)*      str := <hex of bytes> ':' (<decimal> | '!')
+  vals := '-' | val (',' val)*      val := n | b0 | b1 | i8:<d> | u64:<d> | y:<hex> | x
+-/
 namespace Drv.C13
+open Mpc.IoArg
 
-/-- Line-protocol handler of property C13 (stub). -/
-def handle (_args : List String) : String := "bad-op"
+def tagOfChar : Char → Option Tag
+  | 'z' => some .undefined | 'b' => some .bool | 'i' => some .int | 'u' => some .uint
+  | 'f' => some .float | 's' => some .string | 't' => some .struct | 'a' => some .array
+  | 'l' => some .slice | 'p' => some .ptr | 'n' => some .nil
+  | _ => none
+
+def charOfTag : Tag → Char
+  | .undefined => 'z' | .bool => 'b' | .int => 'i' | .uint => 'u' | .float => 'f'
+  | .string => 's' | .struct => 't' | .array => 'a' | .slice => 'l' | .ptr => 'p' | .nil => 'n'
+
+def takeNat (cs : List Char) : Option (Nat × List Char) :=
+  let ds := cs.takeWhile isDigit
+  if ds.isEmpty then none else some (digitsVal ds, cs.dropWhile isDigit)
+
+partial def pInfo (cs : List Char) : Option (Info × List Char) :=
+  match cs with
+  | c :: cs =>
+    match tagOfChar c with
+    | none => none
+    | some tag =>
+      match takeNat cs with
+      | some (bits, '.' :: cs) =>
+        match takeNat cs with
+        | some (n, '[' :: cs) =>
+          match pInfo cs with
+          | some (el, ']' :: cs) => some (.elem tag bits n el, cs)
+          | _ => none
+        | some (n, cs) => some (.base tag bits n, cs)
+        | none => none
+      | _ => none
+  | [] => none
+
+mutual
+partial def pArg (cs : List Char) : Option (Arg × List Char) :=
+  match pInfo cs with
+  | some (t, '{' :: cs) =>
+    match pArgs cs with
+    | some (ms, cs) => some (.mk t ms, cs)
+    | none => none
+  | some (t, cs) => some (.mk t [], cs)
+  | none => none
+partial def pArgs (cs : List Char) : Option (List Arg × List Char) :=
+  match pArg cs with
+  | some (a, ';' :: cs) =>
+    match pArgs cs with
+    | some (as, cs) => some (a :: as, cs)
+    | none => none
+  | some (a, '}' :: cs) => some ([a], cs)
+  | _ => none
+end
+
+def parseInfoTok (s : String) : Option Info :=
+  match pInfo s.toList with
+  | some (t, []) => some t
+  | _ => none
+
+def parseArgTok (s : String) : Option Arg :=
+  match pArg s.toList with
+  | some (a, []) => some a
+  | _ => none
+
+partial def showInfo : Info → String
+  | .base t b n => s!"{charOfTag t}{b}.{n}"
+  | .elem t b n el => s!"{charOfTag t}{b}.{n}[{showInfo el}]"
+
+def hexVal (c : Char) : Option Nat :=
+  if '0' ≤ c && c ≤ '9' then some (c.toNat - '0'.toNat)
+  else if 'a' ≤ c && c ≤ 'f' then some (c.toNat - 'a'.toNat + 10)
+  else none
+
+def hexBytes : List Char → Option (List UInt8)
+  | [] => some []
+  | a :: b :: rest => do
+    let x ← hexVal a
+    let y ← hexVal b
+    let r ← hexBytes rest
+    some (UInt8.ofNat (16 * x + y) :: r)
+  | _ => none
+
+def parseStr (tok : String) : Option StrFacts :=
+  match tok.splitOn ":" with
+  | [h, n] => do
+    let bs ← hexBytes h.toList
+    let s ← String.fromUTF8? (ByteArray.mk bs.toArray)
+    let num ← if n == "!" then some none else (n.toInt?).map some
+    some (StrFacts.ofString s num)
+  | _ => none
+
+def parseStrs (s : String) : Option (List StrFacts) :=
+  if s == "-" then some [] else (s.splitOn ",").mapM parseStr
+
+def parseVal (tok : String) : Option GoVal :=
+  if tok == "n" then some .nil
+  else if tok == "b0" then some (.bool false)
+  else if tok == "b1" then some (.bool true)
+  else if tok == "x" then some .other
+  else
+    match tok.splitOn ":" with
+    | [k, v] =>
+      if k == "y" then
+        (hexBytes v.toList).map fun bs => .bytes (bs.map (·.toNat))
+      else
+        match k.toList with
+        | c :: ws =>
+          if (c == 'i' || c == 'u') && !ws.isEmpty && ws.all isDigit then
+            v.toInt?.map fun z => .num (c == 'i') (digitsVal ws) z
+          else none
+        | [] => none
+    | _ => none
+
+def parseVals (s : String) : Option (List GoVal) :=
+  if s == "-" then some [] else (s.splitOn ",").mapM parseVal
+
+def showErr : Err → String
+  | .count => "count" | .input => "input" | .boolConst => "bool" | .tooMany => "toomany"
+  | .unsupported => "unsupported" | .unsupportedElem => "unsupported-elem" | .atoi => "atoi"
+  | .panic => "panic"
+
+def showNats (l : List Nat) : String :=
+  if l.isEmpty then "-" else ",".intercalate (l.map toString)
+
+def hexOfBytes (b : ByteArray) : String :=
+  String.ofList (b.toList.flatMap fun x => [hexDigit (x.toNat / 16), hexDigit (x.toNat % 16)])
+
+partial def showRVal : RVal → String
+  | .str s => "s:" ++ hexOfBytes s.toUTF8
+  | .u w v => s!"u{w}:{v}"
+  | .i w v => s!"i{w}:{v}"
+  | .big v => s!"big:{v}"
+  | .bool b => if b then "b:1" else "b:0"
+  | .slice n vs => s!"[{n}:" ++ ";".intercalate (vs.map showRVal) ++ "]"
+  | .fmt v => s!"fmt:{v}"
+
+def handle (args : List String) : String :=
+  match args with
+  | ["parse", a, strs] =>
+    match parseArgTok a, parseStrs strs with
+    | some a, some strs =>
+      match a.parse strs with
+      | .ok z => s!"ok {z}"
+      | .error e => "err " ++ showErr e
+    | _, _ => "bad-op"
+  | ["set", a, vals] =>
+    match parseArgTok a, parseVals vals with
+    | some a, some vals =>
+      match a.set vals with
+      | .ok z => s!"ok {z}"
+      | .error e => "err " ++ showErr e
+    | _, _ => "bad-op"
+  | ["isizes", strs] =>
+    match parseStrs strs with
+    | some strs =>
+      match inputSizes strs with
+      | .ok l => "ok " ++ showNats l
+      | .error e => "err " ++ showErr e
+    | none => "bad-op"
+  | ["sizes", vals] =>
+    match parseVals vals with
+    | some vals =>
+      match sizes vals with
+      | .ok l => "ok " ++ showNats l
+      | .error e => "err " ++ showErr e
+    | none => "bad-op"
+  | ["result", t, z] =>
+    match parseInfoTok t, z.toInt? with
+    | some t, some z =>
+      match result t z with
+      | .error _ => "panic"
+      | .ok (v1, c1) =>
+        match result t c1 with
+        | .error _ => s!"{showRVal v1} {c1} panic"
+        | .ok (v2, c2) => s!"{showRVal v1} {c1} {showRVal v2} {c2}"
+    | _, _ => "bad-op"
+  | ["split", ns, z] =>
+    match (if ns == "-" then some [] else (ns.splitOn ",").mapM (·.toNat?)), z.toInt? with
+    | some ns, some z => showNats (split ns z 0)
+    | _, _ => "bad-op"
+  | ["inst", t, c, size] =>
+    match parseInfoTok t, size.toNat? with
+    | some t, some size =>
+      match instantiate t (c == "1") size with
+      | .ok t' => "ok " ++ showInfo t'
+      | .error e => "err " ++ showErr e
+    | _, _ => "bad-op"
+  | ["ty", h] =>
+    match hexBytes (h.toList.drop 1) with
+    | some bs =>
+      match String.fromUTF8? (ByteArray.mk bs.toArray) with
+      | some s =>
+        match parseType (s.length + 1) s.toList with
+        | .ok (t, c) => s!"ok {showInfo t} {if c then 1 else 0}"
+        | .error _ => "err"
+      | none => "bad-op"
+    | none => "bad-op"
+  | _ => "bad-op"
 
 end Drv.C13
 
